@@ -46,6 +46,8 @@ V2_POOL = [
     "x nodomain 1 n.html -",
     "y z:w:v 1 n.html#$ D",
     "é std:label 1 l.html#é Ünï",
+    "same py:class 1 c.html#$ same",
+    "two words std:label -1 t.html#tw two words",
 ]
 V2_MUT = [
     "a py:function 1",
@@ -92,10 +94,11 @@ def load_myst(b: bytes):
 
 
 def build(case) -> bytes:
-    ver, lines, final_nl, pv = case
+    ver, lines, final_nl, pv = case[:4]
+    level = case[4] if len(case) > 4 else 9
     proj, version = PROJ[pv]
     if ver == 2:
-        return make_v2(proj, version, lines, final_newline=final_nl)
+        return make_v2(proj, version, lines, final_newline=final_nl, level=level)
     return make_v1(proj, version, lines, final_newline=final_nl)
 
 
@@ -313,6 +316,9 @@ CHUNK_FILES = [
     [1, ["a mod p.html", "a b func s.html"], False, 1],
     [1, [], True, 0],
     [2, ["a py:function 1 p.html#$ -", "a py:function 1", "t std:term -1 g.html#term-t -"], True, 2],
+    # stored (zlib level 0) bodies: the decompressor hands lines out incrementally, so read boundaries fall inside lines
+    [2, ["long.name.of.object py:function 1 p.html#$ -", "b py:class 1 q.html -", "c std:label -1 r.html T"], True, 0, 0],
+    [2, ["a py:function 1 p.html#$ -", "bb py:class 1 q.html Disp Name", "c std:label -1 r.html -"], False, 0, 0],
 ]
 
 
@@ -322,10 +328,10 @@ class ChunkSystem(System):
 
     def __init__(self, tier):
         super().__init__(tier)
-        self.c = 2 if tier == "quick" else 3
-        self.files = CHUNK_FILES[:6] if tier == "quick" else CHUNK_FILES
+        self.c = 3
+        self.files = CHUNK_FILES[:5] + CHUNK_FILES[8:] if tier == "quick" else CHUNK_FILES
         self.description = (
-            f"{len(self.files)} inventory files (both versions): every delivery of the byte stream through read() with <= {self.c} cut points "
+            f"{len(self.files)} inventory files (both versions): every delivery of the byte stream through read() with <= {self.c} cut points (thorough: <= {self.c + 1} for files under 130 bytes) "
             "(all combinations of positions) and every uniform chunk size 1..len; compared with the single-read result"
         )
 
@@ -370,7 +376,8 @@ class ChunkSystem(System):
             for size in range(1, n + 1):
                 one(tuple(range(size, n, size)), f"uniform size {size}")
         else:
-            for extra in range(self.c):
+            cmax = self.c + 1 if (self.tier != "quick" and n < 130) else self.c
+            for extra in range(cmax):
                 for rest in itertools.combinations(range(first + 1, n), extra):
                     one((first, *rest), (first, *rest))
         nobj = sum(len(x) for t in ref["objects"].values() for x in t.values())
